@@ -1,7 +1,7 @@
 #!/usr/bin/env bash
 # usage: runall.sh <tier> [seed]  — runs every check, prints one line per property
 tier=${1:-quick}; seed=${2:-1}
-cd /verif
+cd "$(dirname "${BASH_SOURCE[0]}")/.."
 for i in $(seq -w 1 20); do
   p=C$i
   s=$(date +%s.%N)
